@@ -10,6 +10,15 @@ from .cardinality import violated
 ERROR, WARNING = "error", "warning"
 
 # issue id -> kind
+def _same_uuid(oid):
+    """Two ids are the same id when they denote the same UUID, however spelled (upper case, braces, urn:uuid:)."""
+    import uuid
+    try:
+        return str(uuid.UUID(oid))
+    except (ValueError, TypeError, AttributeError):
+        return oid
+
+
 KIND_OF = {101: "required", 102: "type-unspecified", 200: "dup-id", 201: "dup-id", 202: "dup-section-name-type",
            203: "dup-property-name", 300: "name-is-id", 401: "dependency", 402: "values-dtype",
            500: "card-properties", 501: "card-sections", 502: "card-values"}
@@ -80,7 +89,7 @@ def expectations(root):
     # duplicate ids within the validated scope
     groups = {}
     for o in objs:
-        groups.setdefault(o.__dict__.get("_id"), []).append(o)
+        groups.setdefault(_same_uuid(o.__dict__.get("_id")), []).append(o)
     for oid, grp in groups.items():
         if len(grp) > 1:
             exp.append({"kind": "dup-id", "rank": ERROR, "objs": [id(o) for o in grp], "count": len(grp) - 1})
